@@ -13,6 +13,9 @@ import (
 
 var concreteOn bool
 
+// rndStream: the scripted entropy stream of the run being evaluated (Random)
+var rndStream []byte
+
 func gInf() *Term { return App("gconst:inf", SG) }
 func gPt(x, y *big.Int) *Term {
 	return App(fmt.Sprintf("gconst:%x,%x", x, y), SG)
@@ -196,7 +199,22 @@ func foldApp(name string, sort Sort, args []*Term) *Term {
 		return StrLit([]byte{byte(args[0].val.Int64())})
 	case "xor8":
 		return IntC(new(big.Int).Xor(args[0].val, args[1].val))
+	case "rndbyte":
+		j, i := int(args[0].val.Int64()), int(args[1].val.Int64())
+		if rndStream == nil || j < 0 || 32*j+i >= len(rndStream) {
+			return nil
+		}
+		return IntI(int64(rndStream[32*j+i]))
 	case "firstnz":
+		if rndStream == nil {
+			return nil
+		}
+		for j := int(args[0].val.Int64()); j >= 0 && 32*j+32 <= len(rndStream); j++ {
+			v := new(big.Int).SetBytes(rndStream[32*j : 32*j+32])
+			if v.Mod(v, primeN).Sign() != 0 {
+				return IntI(int64(j))
+			}
+		}
 		return nil
 	}
 	if strings.HasPrefix(name, "fofint_") {
